@@ -122,6 +122,12 @@ namespace lang
     inline void replace_all(std::string& str, const std::string& to_replace,
                             const std::string& replacement)
     {
+        // an empty pattern occurs nowhere; without this the loop below never ends
+        if (to_replace.empty())
+        {
+            return;
+        }
+
         size_t start_pos = 0;
         while ((start_pos = str.find(to_replace, start_pos)) != std::string::npos)
         {
